@@ -1,6 +1,7 @@
 package checks
 
 import (
+	"math/rand"
 	"time"
 
 	"github.com/nspcc-dev/dbft"
@@ -132,4 +133,108 @@ func DirectedEarlyPreCommit(mons ...vnet.Monitor) *Built {
 	deliverWhere(c, func(e *vnet.Envelope) bool { return e.To != 0 })
 	finish(c)
 	return &Built{C: c, Spec: Spec{Profile: "directed-early-precommit", Idx: -1, Seed: c.Cfg.Seed}}
+}
+
+// DirectedNestedTx: completing the view-0 proposal inside OnTransaction makes
+// the backup reject the block, reach M change views with its own request,
+// enter view 1 and take up the cached view-1 proposal (which misses other
+// transactions) - all inside the same OnTransaction call. Then every
+// transaction requested for the new proposal is supplied. The shape (N,
+// number of old/new transactions, supply orders) is drawn from rng; rng==nil
+// gives the canonical N=4 instance.
+func DirectedNestedTx(rng *rand.Rand, mons ...vnet.Monitor) *Built {
+	n, nOld, nNew := 4, 3, 3
+	if rng != nil {
+		n = []int{4, 5, 7}[rng.Intn(3)]
+		nOld, nNew = 1+rng.Intn(4), 1+rng.Intn(4)
+	}
+	cfg := vnet.Config{Seed: 777, Profile: "directed-nested-tx", N: n, Heights: 1, AMEV: -1, TPB: time.Second, TxPerBlock: 4,
+		Epoch: time.Date(2031, 5, 1, 0, 0, 0, 0, time.UTC).UnixNano(), MaxSteps: 1000}
+	if rng != nil {
+		cfg.Seed = rng.Int63()
+		if rng.Intn(3) == 0 {
+			cfg.AMEV = 0
+		}
+	}
+	cfg.BaseHeight = uint32(2*n - 1) // height 2n: primary of view 0 is validator 0, of view 1 is validator n-1
+	cfg.GenesisTs = uint64(cfg.Epoch) - uint64(cfg.TPB)
+	cfg.K.SlowNode, cfg.K.ResetDelayNode = -1, -1
+	cfg.Roles = make([]vnet.Role, n)
+	c := vnet.NewCluster(cfg, mons...)
+	h := cfg.BaseHeight + 1
+	x := c.Nodes[1]
+	next := c.Nodes[n-1]
+	var old, nw []*vnet.Tx
+	for i := 0; i < nOld; i++ {
+		old = append(old, c.NewTx(false))
+	}
+	for i := 0; i < nNew; i++ {
+		nw = append(nw, c.NewTx(false))
+	}
+	for _, nd := range c.Nodes {
+		if nd != x {
+			for _, t := range old {
+				nd.Pool[t.Hash()] = t
+			}
+		}
+		if nd.ID != 0 {
+			nd.RejectBlocks[[2]uint32{h, 0}] = true
+		}
+	}
+	for i := n - 1; i >= 0; i-- {
+		c.Nodes[i].Start() // the primary (validator 0) starts last and proposes the old transactions
+	}
+	m := n - (n-1)/3
+	deliverWhere(c, func(e *vnet.Envelope) bool { return e.P.T == dbft.PrepareRequestType }) // backups reject and ask for view 1; x requests the transactions
+	// x hears exactly M-1 change views for now, everybody else hears all of them
+	toX := 0
+	deliverWhere(c, func(e *vnet.Envelope) bool {
+		if e.P.T != dbft.ChangeViewType {
+			return false
+		}
+		if e.To == x.ID {
+			if toX >= m-1 {
+				return false
+			}
+			toX++
+		}
+		return true
+	})
+	if next.D.ViewNumber == 0 {
+		c.Nodes[0].Timeout(h, 0, "scripted") // N=4: the primary's own request is needed for the others' quorum
+		deliverWhere(c, func(e *vnet.Envelope) bool { return e.P.T == dbft.ChangeViewType && e.To != x.ID })
+	}
+	// the others are in view 1 now; its primary proposes other transactions (the old ones left its pool)
+	for _, t := range old {
+		delete(next.Pool, t.Hash())
+	}
+	for _, t := range nw {
+		next.Pool[t.Hash()] = t
+	}
+	if dl, p := next.Timer.Deadline(); p && next.D.ViewNumber == 1 {
+		c.Clock = dl
+		next.FireTimer()
+	}
+	deliverWhere(c, func(e *vnet.Envelope) bool { return e.P.T == dbft.PrepareRequestType && e.P.View == 1 && e.To == x.ID })
+	// x gets the transactions it asked for (in some order); the last one completes the view-0 block
+	perm := func(l []*vnet.Tx) []*vnet.Tx {
+		res := append([]*vnet.Tx(nil), l...)
+		if rng != nil {
+			rng.Shuffle(len(res), func(i, j int) { res[i], res[j] = res[j], res[i] })
+		}
+		return res
+	}
+	for _, t := range perm(old) {
+		if x.Live() {
+			x.SupplyTx(t)
+		}
+	}
+	// now everything requested for the view-1 proposal
+	for _, t := range perm(nw) {
+		if x.Live() {
+			x.SupplyTx(t)
+		}
+	}
+	finish(c)
+	return &Built{C: c, Spec: Spec{Profile: cfg.Profile, Idx: -1, Seed: cfg.Seed}}
 }
